@@ -1,6 +1,7 @@
 // ---------- trusted: registry predicates behind keyword.rs ----------
 mod keyword { use vstd::prelude::*; use vstd::string::*; verus!{
-pub uninterp spec fn reg_op(s: Seq<char>) -> bool;
+// exactly what unit lb proves for the real keyword::is_op
+pub open spec fn reg_op(s: Seq<char>) -> bool { reg_prefix(s) || reg_infix(s) || reg_postfix(s) || s == "?"@ || s == ":"@ }
 pub uninterp spec fn reg_postfix(s: Seq<char>) -> bool;
 pub uninterp spec fn reg_prefix(s: Seq<char>) -> bool;
 pub uninterp spec fn reg_infix(s: Seq<char>) -> bool;
